@@ -406,7 +406,7 @@ harness! {
 }
 
 harness! {
-    /// kind=bounded tier=quick bound="ArrayConsumer<L, N>, N in {1,2,3}: k < N elements taken from symbolic ends, then assert_is_empty" expect_fail="in konst::array::ArrayConsumer::<.*>::assert_is_empty"
+    /// kind=bounded tier=quick bound="ArrayConsumer<L, N>, N in {1,2,3}: k < N elements taken from symbolic ends, then assert_is_empty" expect_fail="assertion failed: self.is_empty.. in konst::array::ArrayConsumer::<"
     #[kani::unwind(7)]
     fn c15_consumer_assert_nonempty_panics(s) {
         fn go<S: Src, const N: usize>(s: &mut S) {
@@ -787,7 +787,7 @@ c15_map_exits! {c15_map_exits_n3, 3, |p| [fresh(p[0]), fresh(p[1]), fresh(p[2])]
 macro_rules! c15_map_skip {
     ($name:ident, $n:literal, |$p:ident| $arr:expr) => {
         harness! {
-            /// kind=bounded tier=quick bound="map_! over [L; N], N fixed per harness (1,2,3), 2 closure forms; one unlabelled break or continue at a symbolic call number < N: ArrayBuilder::build must panic; only the ledger before the panic is observable (no unwinding under Kani)" expect_fail="in konst::array::ArrayBuilder::<.*>::build"
+            /// kind=bounded tier=quick bound="map_! over [L; N], N fixed per harness (1,2,3), 2 closure forms; one unlabelled break or continue at a symbolic call number < N: ArrayBuilder::build must panic; only the ledger before the panic is observable (no unwinding under Kani)" expect_fail="placeholder message.* in konst::array::ArrayBuilder::<"
             #[kani::unwind(7)]
             fn $name(s) {
                 const N: usize = $n;
